@@ -1,26 +1,32 @@
 /-!
-# Gaussian rationals `QI = Rat × Rat` (Mathlib-free), the complex coefficient field of
-the executable model.
+# Complex numbers over a coefficient type: `Cx K = K × K`; Gaussian rationals `QI = Cx Rat`
+(Mathlib-free), the complex coefficient field of the executable model.  Generic in `K` so that the same
+definitions are evaluated on `Rat` in the driver and interpreted in `ℂ` (through `K = ℝ`) in the theorems.
 -/
 namespace AV
 
-structure QI where
-  re : Rat
-  im : Rat
+structure Cx (K : Type) where
+  re : K
+  im : K
 deriving BEq, DecidableEq, Repr
 
-namespace QI
-instance : Zero QI := ⟨⟨0, 0⟩⟩
-instance : One QI := ⟨⟨1, 0⟩⟩
-instance : Add QI := ⟨fun a b => ⟨a.re + b.re, a.im + b.im⟩⟩
-instance : Sub QI := ⟨fun a b => ⟨a.re - b.re, a.im - b.im⟩⟩
-instance : Neg QI := ⟨fun a => ⟨-a.re, -a.im⟩⟩
-instance : Mul QI := ⟨fun a b => ⟨a.re * b.re - a.im * b.im, a.re * b.im + a.im * b.re⟩⟩
-def normSq (a : QI) : Rat := a.re * a.re + a.im * a.im
-instance : Div QI := ⟨fun a b =>
+abbrev QI := Cx Rat
+
+namespace Cx
+section
+variable {K : Type} [Add K] [Mul K] [Sub K] [Neg K] [Div K] [Zero K] [One K] [NatCast K]
+instance : Zero (Cx K) := ⟨⟨0, 0⟩⟩
+instance : One (Cx K) := ⟨⟨1, 0⟩⟩
+instance : Add (Cx K) := ⟨fun a b => ⟨a.re + b.re, a.im + b.im⟩⟩
+instance : Sub (Cx K) := ⟨fun a b => ⟨a.re - b.re, a.im - b.im⟩⟩
+instance : Neg (Cx K) := ⟨fun a => ⟨-a.re, -a.im⟩⟩
+instance : Mul (Cx K) := ⟨fun a b => ⟨a.re * b.re - a.im * b.im, a.re * b.im + a.im * b.re⟩⟩
+def normSq (a : Cx K) : K := a.re * a.re + a.im * a.im
+instance : Div (Cx K) := ⟨fun a b =>
   let n := normSq b
   ⟨(a.re * b.re + a.im * b.im) / n, (a.im * b.re - a.re * b.im) / n⟩⟩
-instance : NatCast QI := ⟨fun n => ⟨(n : Rat), 0⟩⟩
-def conj (a : QI) : QI := ⟨a.re, -a.im⟩
-end QI
+instance : NatCast (Cx K) := ⟨fun n => ⟨(n : K), 0⟩⟩
+def conj (a : Cx K) : Cx K := ⟨a.re, -a.im⟩
+end
+end Cx
 end AV
